@@ -1230,6 +1230,18 @@ class Engine:
         if isinstance(tgt, ast.Subscript):
             base = self.ev(tgt.value)
             if isinstance(tgt.slice, ast.Slice):
+                sl = tgt.slice
+                bt = base.ty.args[0] if base.ty.kind == "opt" else base.ty
+                if sl.lower is None and sl.upper is None and sl.step is None and bt.kind == "list" \
+                        and v.ty.kind == "list":
+                    # lst[:] = other : the list object keeps its identity, its contents become other's
+                    if base.ty.kind == "opt":
+                        self.deref_check(base, line)
+                    ety = bt.args[0]
+                    self.hwrite(f"list.elem.{T.sort_name(ety)}", base.t, self.list_arr(v.t, v.ty.args[0]),
+                                z3.ArraySort(z3.IntSort(), T.sort_of(ety)))
+                    self.hwrite("list.len", base.t, self.list_len(v.t), z3.IntSort())
+                    return
                 raise Unsupported("slice assignment")
             idx = self.ev(tgt.slice)
             self.B.setitem(base, idx, v, line)
